@@ -39,12 +39,13 @@ NESTED = 'C11-nested-braces'
 
 
 def bounds(tier):
-    return {'groups_per_string': 2, 'structure_depth': 3, 'defined_names': 2, 'global_vars': ['mapping', 'object'],
+    return {'groups_per_string': 2 if tier == 'quick' else 3, 'structure_depth': 3, 'defined_names': 2, 'global_vars': ['mapping', 'object'],
             'text_and_names': 'unbounded symbolic strings without braces'}
 
 
 def cases(tier):
-    out = [('sym', shape, gv) for shape in ('one', 'two', 'adjacent', 'empty') for gv in ('mapping', 'object')]
+    shapes = ('one', 'two', 'adjacent', 'empty') if tier == 'quick' else ('one', 'two', 'adjacent', 'empty', 'three')
+    out = [('sym', shape, gv) for shape in shapes for gv in ('mapping', 'object')]
     out += [('nested', 0, 0), ('twice', 0, 0), ('uses', 0, 0), ('config', 0, 0)]
     return out
 
@@ -94,6 +95,10 @@ def sym(case):
         elif shape == 'adjacent':
             s = sx_add(sx_add(sx_add(t0, group(N)), group(M)), t2)
             parts = [t0, ('g', N), ('g', M), t2]
+        elif shape == 'three':
+            K = T('K')
+            s = sx_add(sx_add(sx_add(sx_add(sx_add(t0, group(N)), t1), group(M)), group(K)), t2)
+            parts = [t0, ('g', N), t1, ('g', M), ('g', K), t2]
         else:
             s = sx_add(sx_add(t0, '{}'), t1)
             parts = [t0, ('g', ''), t1]
